@@ -29,7 +29,12 @@ PROP = {
              "(success early, timeout not before and not long after the deadline), also with two concurrent callers (first waiter "
              "waiting + caller satisfied at once + head arrives; oracle: each caller's verdict is what the best connection's heads "
              "demand) and with all heads queued before the Run goroutine is started (batch shape; oracle wait-lost-head: a caller "
-             "whose target the best connection reached must not time out). Regression oracles for the four repaired defects and a 1.5 s stress under the real Run loop (publisher + 8 "
+             "whose target the best connection reached must not time out). The exported entry points that wait (c13.entry: BestMasterchainClient, BestClientByAccountID, BestClientByBlockID, "
+             "WaitMasterchainSeqno) on a fresh pool of real connections under the real Run loop, with events before the call and "
+             "WHILE it waits (heads of any connection, connections dying / coming back / changing RTT, refreshes): uninitialised "
+             "choice, switch of the best connection on death or on falling behind, first head, initialised pool, nothing arrives, "
+             "empty pool, random event lists; compared with the model: status, the head handed to the caller (the head it "
+             "received) and the client's connection; oracle best-client-stale-head: a returned head is >= 1. Regression oracles for the four repaired defects and a 1.5 s stress under the real Run loop (publisher + 8 "
              "callers with 20 ms timeouts + updateBest every 20 ms, watchdog 5 s, key pool-stuck), refreshes with a dead previous "
              "choice while a publisher feeds the alive lowest-RTT connection through the real SetMasterHead and the real Run "
              "drains (every refresh must choose it, key updatebest-racing-head), and a head injected at a schedule point of the "
@@ -46,7 +51,8 @@ PROP = {
                     "every snapshot); over all interleavings of any number of "
                     "connections, waiters and head updates: a waiter returns nil iff it received a head >= its target that was "
                     "published for the then-best connection, a sufficient head sent to a waiting caller is never lost, a "
-                    "notification reaches every registered waiter, timeout/cancel is always enabled and a caller that left "
+                    "notification reaches every registered waiter, BestMasterchainClient's wait hands out the head it received (>= 1, reported by the then-best connection; the design "
+                    "that re-reads the captured connection's head is refuted after a switch), timeout/cancel is always enabled and a caller that left "
                     "its loop returns; ids: a registered waiter's id is never 0 (what subscribe returns to a satisfied caller), the "
                     "unsubscribe of a satisfied caller removes nobody, an unsubscribe removes exactly the caller's own registration, "
                     "a registered waiter stays registered until then and gets every notified head; the pool lock is modelled with "
@@ -64,6 +70,7 @@ PROP = {
                     "'the best connection reports a head' = Run handles an update whose connection id equals bestConn's; a switch of bestConn does not wake waiters (observation)",
                     "pools without connections (subscribe dereferences nil bestConn) are outside the quantifier (1..4 connections); proved impossible with >= 1 connection",
                     "connection ids are pairwise different (indices of the servers in the configuration), so sort.Slice's result is determined; addConnection is modelled for initialisation (before waiters exist), not interleaved with the wait-list protocol",
+                    "BestMasterchainInfoClient does not wait and its connection is not observable (unexported field): not driven; BestMasterchainClient returns the client of the connection captured at call time even if the best connection switched while it waited (observation: the head then belongs to another connection)",
                     "wall-clock time and data races (BestArchiveClient reads p.conns unlocked) are not modelled"],
 }
 
